@@ -57,12 +57,15 @@ def enc_mat(m, shape=None):
     return f"{r}x{c}:{body}"
 
 
-def enc_pm(pm):
+def enc_pm(pm, empty_from=None):
+    """`empty_from`: phases from this number on have no sample; their rows are unspecified by
+    the property (NaN for ndarray observables, 0 for the masked arrays netCDF4 hands out) and are
+    written as `nan` like the model's"""
     pm = np.asarray(pm)
     r, c = pm.shape
     rows = []
-    for row in pm:
-        if c and np.all(np.isnan(row)):
+    for i, row in enumerate(pm):
+        if c and (np.all(np.isnan(row)) or (empty_from is not None and i >= empty_from)):
             rows.append("nan")
         else:
             rows.append(enc_vec(row))
@@ -96,6 +99,18 @@ def tol_of(case, exact):
     if case["dtype"] == "float32":
         return TOL32, max([1.0] + [abs(x) for r in case["obs"] for x in r])
     return TOL, 1
+
+
+def rounding_units(case, exact):
+    """(u, ud): relative error of one + / - and of the division by the sample count in the
+    arithmetic NumPy uses for this observable (0 on the exact-integer stream, where every mean
+    is an integer below 2^24).  float32 observables: the sum is accumulated in float32, and the
+    division by the intp count is carried out in double and rounded to float32 again."""
+    if exact:
+        return Fraction(0), Fraction(0)
+    if case["dtype"] == "float32":
+        return Fraction(1, 2 ** 24), Fraction(1, 2 ** 24) + Fraction(1, 2 ** 52)
+    return Fraction(1, 2 ** 53), Fraction(1, 2 ** 53)
 
 
 def same(model, impl, tol, scale=1):
@@ -133,12 +148,31 @@ def is_load(case):
 
 
 class FakeVar:
-    """stand-in for a NetCDF variable: `var[:]` is the array, `.long_name`, `len(var)`"""
-    def __init__(self, a, long_name="a long name"):
+    """stand-in for a NetCDF variable: `var[:]` is the array, `.long_name`, `len(var)`.
+    Round 4: like `netCDF4.Variable` with its default `set_auto_maskandscale(True)` a variable
+    may be *packed* (integer storage with `scale_factor` / `add_offset` attributes, unpacked on
+    access as `raw * scale_factor + add_offset`) and is then returned as a
+    `numpy.ma.MaskedArray` (entries equal to `_FillValue` masked; `masked=True` alone = the
+    always-masked default of netCDF4 for a variable without missing values)"""
+    def __init__(self, a, long_name="a long name", masked=False, scale_factor=None,
+                 add_offset=None, fill=None):
         self._a, self.long_name = np.asarray(a), long_name
+        self._masked = masked or scale_factor is not None or fill is not None
+        if scale_factor is not None:
+            self.scale_factor, self.add_offset = scale_factor, add_offset
+        if fill is not None:
+            self._FillValue = fill
 
     def __getitem__(self, key):
-        return self._a[key]
+        a = self._a[key]
+        if not self._masked:
+            return a
+        mask = np.ma.nomask
+        if hasattr(self, "_FillValue"):
+            mask = a == self._FillValue
+        if hasattr(self, "scale_factor"):
+            a = a * self.scale_factor + self.add_offset
+        return np.ma.MaskedArray(a, mask=mask)
 
     def __len__(self):
         return len(self._a)
@@ -181,13 +215,29 @@ def load_obj(case, window):
         big[:, 0 if level is None else level] = arr
         arr = big
     names = ld["names"]
-    variables = {"obsvar": FakeVar(arr), names["time"]: FakeVar(np.array(case["time"]))}
-    if ld["ftype"] == "NetCDF":
-        variables[names["lat"]] = FakeVar(np.array(ld["latg"]))
-        variables[names["lon"]] = FakeVar(np.array(ld["long"]))
+    store = ld.get("store", "plain")
+    mk = store != "plain"       # netCDF4 hands out masked arrays for every variable by default
+    if store == "packed":
+        # integer storage: raw * scale_factor + add_offset reproduces the values exactly
+        # (scale_factor = L / 2^m, add_offset = L * k; all products exact in double)
+        L, m, k = ld["pack"]
+        raw = (arr / L - k) * 2 ** m
+        assert np.all(raw == np.round(raw)) and np.abs(raw).max() < 32767 or ld["nlev"]
+        if ld["nlev"]:
+            raw = np.where(arr == 12345.0, -32768, raw)     # the filler planes are "missing"
+            obsvar = FakeVar(raw.astype("int16"), scale_factor=L / 2 ** m, add_offset=float(L * k),
+                             fill=-32768)
+        else:
+            obsvar = FakeVar(raw.astype("int16"), scale_factor=L / 2 ** m, add_offset=float(L * k))
     else:
-        variables["grid_center_lat"] = FakeVar(np.array(case["lat"]))
-        variables["grid_center_lon"] = FakeVar(np.array(case["lon"]))
+        obsvar = FakeVar(arr, masked=mk)
+    variables = {"obsvar": obsvar, names["time"]: FakeVar(np.array(case["time"]), masked=mk)}
+    if ld["ftype"] == "NetCDF":
+        variables[names["lat"]] = FakeVar(np.array(ld["latg"]), masked=mk)
+        variables[names["lon"]] = FakeVar(np.array(ld["long"]), masked=mk)
+    else:
+        variables["grid_center_lat"] = FakeVar(np.array(case["lat"]), masked=mk)
+        variables["grid_center_lon"] = FakeVar(np.array(case["lon"]), masked=mk)
     FakeDataset.files["mem.nc"] = variables
     old = getattr(data_mod, "Dataset", None)
     data_mod.Dataset = FakeDataset
@@ -351,6 +401,8 @@ def do_op(obj, tok, case):
                 w = obj.window()
                 return enc_vec([w[k] for k in WKEYS])
             if tok == "pm":
+                if is_load(case) and case["load"].get("store", "plain") != "plain":
+                    return enc_pm(obj.phase_mean(), empty_from=obj.observable().shape[0])
                 return enc_pm(obj.phase_mean())
             if tok == "an":
                 return enc_mat(obj.anomaly())
@@ -492,25 +544,35 @@ def _check_state(ctx, case, obj, view, upto, exact, after):
         if pi.tolist() != exp_pi:
             ok = bad("phase_indices", "value", "phase_indices() are not the complete-year indices "
                      "of each phase", observed=pi.tolist(), expected=exp_pi)
-    tol = Fraction(tol_of(case, exact)[0])
-    scale = max([1] + [abs(x) for r in view["obs"] for x in r])
-
-    def close(a, b):
-        return abs(a - b) <= tol * scale
+    # Round 4: no chosen tolerance.  On the exact-integer stream the values must be equal; on
+    # the other stream the deviations are bounded by the *theorems* float_phase_mean_error,
+    # float_anomaly_phase_mean_error and float_addback_error (standard model, any order of
+    # summation), evaluated here in exact arithmetic on the values the real code returned.
+    u, ud = rounding_units(case, exact)
 
     # --- phase means are the means of the samples of each phase
     if pm.shape == (c, Nn):
         for i in range(c):
             rows = view["obs"][i::c]
             if not rows:
-                if not np.all(np.isnan(pm[i])):
+                # (the row of a phase without samples is NaN for ndarray observables; for the
+                # masked arrays of a NetCDF file NumPy stores 0 -- the property does not say)
+                if not np.all(np.isnan(pm[i])) and not np.ma.isMaskedArray(obj.observable()):
                     ok = bad("phase_mean", "value", f"phase {i} has no sample but a finite mean")
                 continue
+            k = len(rows)
             for j in range(Nn):
-                m = sum(r[j] for r in rows) / len(rows)
-                if math.isnan(pm[i, j]) or not close(fr(pm[i, j]), m):
+                m = sum(r[j] for r in rows) / k
+                bound = ((1 + u) ** (k - 1) * (1 + ud) - 1) * sum(abs(r[j]) for r in rows) / k
+                if not exact and not math.isnan(pm[i, j]) and fr(pm[i, j]) != m and hasattr(ctx, "extra"):
+                    ctx.count("float-bound:phase_mean-entries-actually-rounded")
+                    ctx.extra["max_error_over_bound_phase_mean"] = max(
+                        ctx.extra.get("max_error_over_bound_phase_mean", 0.0),
+                        float(abs(fr(pm[i, j]) - m) / bound))
+                if math.isnan(pm[i, j]) or abs(fr(pm[i, j]) - m) > bound:
                     ok = bad("phase_mean", "value",
-                             f"phase_mean()[{i},{j}] = {pm[i, j]}, mean of the phase samples is {float(m)}")
+                             f"phase_mean()[{i},{j}] = {pm[i, j]}, mean of the phase samples is {float(m)}"
+                             + ("" if exact else f" (proved rounding bound {float(bound):.3g})"))
                     break
     if flag:
         # data are declared anomalies: anomaly() is the windowed observable
@@ -518,27 +580,40 @@ def _check_state(ctx, case, obj, view, upto, exact, after):
             ok = bad("anomaly", "value", "anomalies=True: anomaly() differs from observable()")
         return ok
     A = frac_mat(an)
+    if pm.shape != (c, Nn):
+        return ok
     for i in range(c):
-        rows = A[i::c]
+        rows, xs = A[i::c], view["obs"][i::c]
         if not rows:
             continue
+        k = len(rows)
         for j in range(Nn):
-            m = sum(r[j] for r in rows) / len(rows)
-            if not close(m, 0):
+            if math.isnan(pm[i, j]):
+                break       # reported above
+            p = fr(pm[i, j])
+            m = sum(r[j] for r in rows) / k
+            bound = abs(sum(x[j] for x in xs) / k - p) + u * sum(abs(x[j] - p) for x in xs) / k
+            if abs(m) > bound:
                 ok = bad("anomaly", "zero-mean",
-                         f"mean of anomaly() over phase {i}, node {j} is {float(m)}")
+                         f"mean of anomaly() over phase {i}, node {j} is {float(m)}"
+                         + ("" if exact else f" (proved rounding bound {float(bound):.3g})"))
                 break
-    if pm.shape == (c, Nn):
-        for t in range(Tn):
-            for j in range(Nn):
-                p = pm[t % c, j]
-                if math.isnan(p) or not close(A[t][j] + fr(p), view["obs"][t][j]):
-                    ok = bad("anomaly", "add-back",
-                             f"anomaly()[{t},{j}] + phase_mean()[{t % c},{j}] != observable()[{t},{j}]")
-                    break
-            else:
-                continue
-            break
+    for t in range(Tn):
+        for j in range(Nn):
+            p = pm[t % c, j]
+            if (not exact and not math.isnan(p) and A[t][j] + fr(p) != view["obs"][t][j]
+                    and hasattr(ctx, "extra")):
+                ctx.count("float-bound:add-back-entries-actually-rounded")
+                ctx.extra["max_error_over_bound_add_back"] = max(
+                    ctx.extra.get("max_error_over_bound_add_back", 0.0),
+                    float(abs(A[t][j] + fr(p) - view["obs"][t][j]) / (u * abs(view["obs"][t][j] - fr(p)))))
+            if math.isnan(p) or abs(A[t][j] + fr(p) - view["obs"][t][j]) > u * abs(view["obs"][t][j] - fr(p)):
+                ok = bad("anomaly", "add-back",
+                         f"anomaly()[{t},{j}] + phase_mean()[{t % c},{j}] != observable()[{t},{j}]")
+                break
+        else:
+            continue
+        break
     return ok
 
 
@@ -621,6 +696,10 @@ def twin_check(ctx, case, obj, base, w, upto):
         return False
     for nm, a, b in pairs:
         a, b = np.asarray(a), np.asarray(b)
+        if nm == "phase_mean" and a.shape == b.shape and np.ma.isMaskedArray(pairs[0][1]):
+            # rows of phases without samples are unspecified (0 for masked observables, NaN for
+            # the twin's plain array): compare the phases that have samples
+            a, b = a[:pairs[0][1].shape[0]], b[:pairs[0][1].shape[0]]
         if a.shape != b.shape or not np.array_equal(a, b, equal_nan=True):
             ctx.fail({"class": case["cls"], "method": nm, "kind": "stale",
                       "anomalies_flag": bool(case["flag"])},
@@ -1034,6 +1113,10 @@ def gen_load_case(ctx, rng):
     if rng.random() < 0.3:
         names = {"lat": "latitude", "lon": "longitude", "time": "t"}
     climate = cls == "LoadClimate"
+    # round 4: how the file stores the variable (what netCDF4 hands out for it)
+    store = rng.choice(["plain", "masked", "packed", "packed"])
+    pack = (L, rng.randrange(0, 10), rng.randrange(-5, 6))
+    ctx.count(f"load:storage:{store}")
 
     def win():
         j, i0, i1 = rng.randrange(N), rng.randrange(T), rng.randrange(T)
@@ -1056,7 +1139,7 @@ def gen_load_case(ctx, rng):
             "obs": obs, "dtype": "float32", "ops": ops, "gdtype": "float32", "layout": "C",
             "btype": rng.choice(["float", "int", "np32", "mixed"]), "scale": None,
             "load": {"ftype": ftype, "latg": latg, "long": long, "nlev": nlev, "level": level,
-                     "names": names}}
+                     "names": names, "store": store, "pack": pack}}
 
 
 def edge_cases():
